@@ -27,60 +27,65 @@ def rt (s : Sim) : Sim := { s with flags := { s.flags with realTraps := true } }
 /-- a result that is an error -/
 def AnyErr {α} (r : Except StepBreak α) : Prop := ∃ e, r = .error e
 
+/-- a result that is an error of one of the kinds `B` -/
+def BadErr (B : StepBreak → Prop) {α} (r : Except StepBreak α) : Prop := ∃ e, B e ∧ r = .error e
+
 /-- outcome of the virtual-trap run vs. outcome of the real-trap run -/
-def OutRel {α} (o1 o2 : Except StepBreak α × Sim) : Prop :=
-  o1.2.flags.realTraps = false ∧ (AnyErr o1.1 ∨ o2 = (o1.1, rt o1.2))
+def OutRel (B : StepBreak → Prop) {α} (o1 o2 : Except StepBreak α × Sim) : Prop :=
+  o1.2.flags.realTraps = false ∧ (BadErr B o1.1 ∨ o2 = (o1.1, rt o1.2))
 
 /-- `m` run on a machine with virtual traps and on the same machine with real traps -/
-def Rel {α} (m : SimM α) : Prop := ∀ s, s.flags.realTraps = false → OutRel (m s) (m (rt s))
+def Rel (B : StepBreak → Prop) {α} (m : SimM α) : Prop := ∀ s, s.flags.realTraps = false → OutRel B (m s) (m (rt s))
 
-theorem OutRel.same {α} (r : Except StepBreak α) (s : Sim) (h : s.flags.realTraps = false) : OutRel (r, s) (r, rt s) := ⟨h, Or.inr rfl⟩
+variable {B : StepBreak → Prop}
 
-theorem outRel_bind {α β} (m : SimM α) (f : α → SimM β) (s : Sim) (h : OutRel (m s) (m (rt s)))
-    (hf : ∀ a s', s'.flags.realTraps = false → OutRel (f a s') (f a (rt s'))) : OutRel ((m >>= f) s) ((m >>= f) (rt s)) := by
+theorem OutRel.same {α} (r : Except StepBreak α) (s : Sim) (h : s.flags.realTraps = false) : OutRel B (r, s) (r, rt s) := ⟨h, Or.inr rfl⟩
+
+theorem outRel_bind {α β} (m : SimM α) (f : α → SimM β) (s : Sim) (h : OutRel B (m s) (m (rt s)))
+    (hf : ∀ a s', s'.flags.realTraps = false → OutRel B (f a s') (f a (rt s'))) : OutRel B ((m >>= f) s) ((m >>= f) (rt s)) := by
   obtain ⟨hfl, hr⟩ := h
   simp only [SimM.bind_apply]
   rcases h1 : m s with ⟨r, s'⟩
   rw [h1] at hfl hr
   simp only at hfl hr
-  rcases hr with ⟨e, he⟩ | hr
+  rcases hr with ⟨e, hB, he⟩ | hr
   · subst he
-    exact ⟨hfl, Or.inl ⟨e, rfl⟩⟩
+    exact ⟨hfl, Or.inl ⟨e, hB, rfl⟩⟩
   · rw [hr]
     cases r with
     | ok a => exact hf a s' hfl
     | error e => exact ⟨hfl, Or.inr rfl⟩
 
-theorem Rel.bind {α β} {m : SimM α} {f : α → SimM β} (h : Rel m) (hf : ∀ a, Rel (f a)) : Rel (m >>= f) :=
+theorem Rel.bind {α β} {m : SimM α} {f : α → SimM β} (h : Rel B m) (hf : ∀ a, Rel B (f a)) : Rel B (m >>= f) :=
   fun s hs => outRel_bind m f s (h s hs) (fun a s' hs' => hf a s' hs')
 
-theorem Rel.pure {α} (a : α) : Rel (Pure.pure a : SimM α) := fun s hs => OutRel.same _ _ hs
+theorem Rel.pure {α} (a : α) : Rel B (Pure.pure a : SimM α) := fun s hs => OutRel.same _ _ hs
 
 /-- reading the state: the continuation sees the virtual-trap state on one side and the real-trap one on the other -/
-theorem Rel.getS {β} {f : Sim → SimM β} (h : ∀ s, s.flags.realTraps = false → OutRel (f s s) (f (rt s) (rt s))) :
-    Rel (SimM.getS >>= f) := by
+theorem Rel.getS {β} {f : Sim → SimM β} (h : ∀ s, s.flags.realTraps = false → OutRel B (f s s) (f (rt s) (rt s))) :
+    Rel B (SimM.getS >>= f) := by
   intro s hs
   simp only [SimM.bind_apply, SimM.getS_apply]
   exact h s hs
 
 /-- a state update that neither reads nor writes the flags -/
-theorem Rel.modify (f : Sim → Sim) (h1 : ∀ s, f (rt s) = rt (f s)) (h2 : ∀ s, (f s).flags = s.flags) : Rel (modifyS f) := by
+theorem Rel.modify (f : Sim → Sim) (h1 : ∀ s, f (rt s) = rt (f s)) (h2 : ∀ s, (f s).flags = s.flags) : Rel B (modifyS f) := by
   intro s hs
   simp only [SimM.modifyS_apply]
   refine ⟨by rw [h2]; exact hs, Or.inr ?_⟩
   rw [h1]
 
-theorem Rel.throwB {α} (b : StepBreak) : Rel (SimM.throwB b : SimM α) := fun s hs => OutRel.same _ _ hs
-theorem Rel.throwErr {α} (e : SimErr) : Rel (SimM.throwErr e : SimM α) := fun s hs => OutRel.same _ _ hs
+theorem Rel.throwB {α} (b : StepBreak) : Rel B (SimM.throwB b : SimM α) := fun s hs => OutRel.same _ _ hs
+theorem Rel.throwErr {α} (e : SimErr) : Rel B (SimM.throwErr e : SimM α) := fun s hs => OutRel.same _ _ hs
 
-theorem Rel.ite {α} (c : Prop) [Decidable c] {a b : SimM α} (ha : Rel a) (hb : Rel b) : Rel (if c then a else b) := by
+theorem Rel.ite {α} (c : Prop) [Decidable c] {a b : SimM α} (ha : Rel B a) (hb : Rel B b) : Rel B (if c then a else b) := by
   by_cases h : c <;> simp only [h, if_true, if_false] <;> assumption
 
-theorem Rel.liftE {α} (x : Except SimErr α) : Rel (SimM.liftE x) := by
+theorem Rel.liftE {α} (x : Except SimErr α) : Rel B (SimM.liftE x) := by
   intro s hs
   cases x <;> exact OutRel.same _ _ hs
 
-theorem Rel.setRegIfInit (r : Reg) (v : Word) (b : Bool) : Rel (Sim.setRegIfInit r v b) := by
+theorem Rel.setRegIfInit (r : Reg) (v : Word) (b : Bool) : Rel B (Sim.setRegIfInit r v b) := by
   intro s hs
   unfold Sim.setRegIfInit Word.setIfInit
   simp only [SimM.bind_apply, SimM.getS_apply]
@@ -101,17 +106,17 @@ theorem readMem_rt (a : W) (c : Ctx) (s : Sim) :
     by_cases h3 : c.track = true <;> simp only [h1, h2, h3, if_true, if_false, Bool.false_eq_true] <;>
     first | exact ⟨rfl, rfl⟩ | exact ⟨trivial, trivial⟩ | trivial
 
-theorem Rel.readMem (a : W) (c : Ctx) : Rel (Sim.readMem a c) := by
+theorem Rel.readMem (a : W) (c : Ctx) : Rel B (Sim.readMem a c) := by
   intro s hs
   have h := readMem_rt a c s
   refine ⟨by rw [h.2]; exact hs, Or.inr ?_⟩
   exact h.1
 
-theorem Rel.writeMem (a : W) (d : Word) (c : Ctx) : Rel (Sim.writeMem a d c) := by
+theorem Rel.writeMem (a : W) (d : Word) (c : Ctx) : Rel B (Sim.writeMem a d c) := by
   intro s hs
   obtain ⟨mem, regs, pc, psr, savedSp, frameNo, frames, srDefs, alloca, instrRun, prefetch, pause, observer, mcr, flags, bps, iregs, dev, log⟩ := s
   simp only at hs
-  unfold OutRel AnyErr
+  unfold OutRel BadErr
   simp only [Sim.writeMem, ioWritePart, storePart, rt, iregLookup, iregWrite, Word.getIfInit, Word.setIfInit]
   generalize Option.map (fun x => x.snd) (List.find? (fun p => p.fst == a) iregs) = look
   rcases look with _ | ir
@@ -134,25 +139,25 @@ theorem Rel.writeMem (a : W) (d : Word) (c : Ctx) : Rel (Sim.writeMem a d c) := 
         | exact ⟨hs, Or.inr trivial⟩
 
 
-theorem Rel.setPc (w : Word) (chk : Bool) : Rel (Sim.setPc w chk) := by
+theorem Rel.setPc (w : Word) (chk : Bool) : Rel B (Sim.setPc w chk) := by
   intro s hs
-  unfold Sim.setPc OutRel AnyErr
+  unfold Sim.setPc OutRel BadErr
   cases hst : s.flags.strict <;> cases hw : w.isInit <;> cases chk <;> cases hm : (s.memAt w.data).isInit <;>
     simp [Word.getIfInit, hw, hm, hs, hst, rt] <;> rfl
 
-theorem Rel.offsetPc (off : W) (chk : Bool) : Rel (Sim.offsetPc off chk) := by
+theorem Rel.offsetPc (off : W) (chk : Bool) : Rel B (Sim.offsetPc off chk) := by
   unfold Sim.offsetPc
   apply Rel.getS
   intro s hs
   exact Rel.setPc _ _ s hs
 
-theorem Rel.callSubroutine (addr : W) : Rel (Sim.callSubroutine addr) := by
+theorem Rel.callSubroutine (addr : W) : Rel B (Sim.callSubroutine addr) := by
   unfold Sim.callSubroutine
   refine Rel.bind (Rel.modify _ (fun _ => rfl) (fun _ => rfl)) (fun _ => ?_)
   refine Rel.bind (Rel.modify _ (fun _ => rfl) (fun _ => rfl)) (fun _ => ?_)
   exact Rel.setPc _ _
 
-theorem Rel.callInterrupt (vect : W) (ft : FrameType) : Rel (Sim.callInterrupt vect ft) := by
+theorem Rel.callInterrupt (vect : W) (ft : FrameType) : Rel B (Sim.callInterrupt vect ft) := by
   unfold Sim.callInterrupt
   apply Rel.getS
   intro s hs
@@ -162,7 +167,7 @@ theorem Rel.callInterrupt (vect : W) (ft : FrameType) : Rel (Sim.callInterrupt v
   refine Rel.bind (Rel.modify _ (fun _ => rfl) (fun _ => rfl)) (fun _ => ?_)
   exact Rel.setPc _ _
 
-theorem Rel.virtualBreak (brk : StepBreak) : Rel (Sim.virtualBreak brk) := by
+theorem Rel.virtualBreak (brk : StepBreak) : Rel B (Sim.virtualBreak brk) := by
   unfold Sim.virtualBreak
   apply Rel.getS
   intro s hs
@@ -171,7 +176,7 @@ theorem Rel.virtualBreak (brk : StepBreak) : Rel (Sim.virtualBreak brk) := by
   exact Rel.bind (Rel.offsetPc _ _) (fun _ => Rel.bind (Rel.modify _ (fun _ => rfl) (fun _ => rfl)) (fun _ => Rel.throwB brk))
 
 theorem Rel.enterCore (vect : W) (priority : Option Nat) (oldPsr oldPc : W) :
-    Rel (Sim.enterCore vect priority oldPsr oldPc) := by
+    Rel B (Sim.enterCore vect priority oldPsr oldPc) := by
   unfold Sim.enterCore
   refine Rel.bind (Rel.modify _ (fun _ => rfl) (fun _ => rfl)) (fun _ => ?_)
   apply Rel.getS
@@ -187,7 +192,7 @@ theorem Rel.enterCore (vect : W) (priority : Option Nat) (oldPsr oldPc : W) :
   | some p => exact Rel.bind (Rel.modify _ (fun _ => rfl) (fun _ => rfl)) (fun _ => Rel.callInterrupt _ _)
 
 theorem Rel.enterSupervisor (vect : W) (priority : Option Nat) :
-    Rel (Sim.enterSupervisor vect priority) := by
+    Rel B (Sim.enterSupervisor vect priority) := by
   intro s hs
   unfold Sim.enterSupervisor
   have h : (if (!PSR.privileged (rt s).psr) = true then (rt s).swapStacks else (rt s)) =
@@ -198,20 +203,29 @@ theorem Rel.enterSupervisor (vect : W) (priority : Option Nat) :
   rw [h]
   exact Rel.enterCore vect priority s.psr s.pc _ (by by_cases hp : (!PSR.privileged s.psr) = true <;> simp only [hp, if_true, if_false] <;> exact hs)
 
-/-- a virtual break always ends in an error -/
-theorem virtualBreak_err (brk : StepBreak) (s : Sim) : AnyErr (Sim.virtualBreak brk s).1 := by
+/-- moving the PC without the strict-mode check cannot fail -/
+theorem offsetPc_ok (off : W) (s : Sim) : (Sim.offsetPc off false s).1 = .ok () := by
+  unfold Sim.offsetPc Sim.setPc
+  have hi : (Word.ofData (s.pc + off)).isInit = true := rfl
+  simp only [SimM.bind_apply, SimM.getS_apply, Word.getIfInit, hi, Bool.or_true, if_true, SimM.liftE_ok, Bool.and_false,
+    Bool.false_eq_true, if_false, SimM.pure_apply, SimM.modifyS_apply]
+
+/-- a virtual break ends in exactly that break -/
+theorem virtualBreak_err (brk : StepBreak) (s : Sim) : (Sim.virtualBreak brk s).1 = .error brk := by
   unfold Sim.virtualBreak
   simp only [SimM.bind_apply, SimM.getS_apply]
   by_cases hp : (!s.prefetch) = true
   · simp only [hp, if_true, SimM.bind_apply]
+    have h0 := offsetPc_ok (0xFFFF : W) s
     rcases h1 : Sim.offsetPc (0xFFFF : W) false s with ⟨r, s1⟩
-    cases r with
-    | error e => exact ⟨e, rfl⟩
-    | ok u => simp only [SimM.modifyS_apply, SimM.throwB_apply]; exact ⟨brk, rfl⟩
-  · simp only [hp, if_false, SimM.throwB_apply]; exact ⟨brk, rfl⟩
+    rw [h1] at h0
+    simp only at h0
+    subst h0
+    simp only [SimM.modifyS_apply, SimM.throwB_apply]
+  · simp only [hp, if_false, Bool.false_eq_true, SimM.throwB_apply]
 
-theorem Rel.handleInterrupt (vect : W) (priority : Option Nat) :
-    Rel (Sim.handleInterrupt vect priority) := by
+theorem Rel.handleInterrupt (vect : W) (priority : Option Nat) (hB : ∀ brk, realIntVect vect = some brk → B brk) :
+    Rel B (Sim.handleInterrupt vect priority) := by
   intro s hs
   unfold Sim.handleInterrupt
   have hg : (rt s).gated priority = s.gated priority := by cases priority <;> rfl
@@ -223,13 +237,13 @@ theorem Rel.handleInterrupt (vect : W) (priority : Option Nat) :
     | none => exact Rel.enterSupervisor vect priority s hs
     | some brk =>
       -- virtual traps: the break is reported; real traps: the supervisor is entered — the virtual run ends in an error
-      refine ⟨?_, Or.inl (virtualBreak_err brk s)⟩
+      refine ⟨?_, Or.inl ⟨brk, hB brk hv, virtualBreak_err brk s⟩⟩
       -- the flags are not changed by a virtual break
       unfold Sim.virtualBreak
       simp only [SimM.bind_apply, SimM.getS_apply]
       by_cases hp : (!s.prefetch) = true
       · simp only [hp, if_true, SimM.bind_apply]
-        have hop := Rel.offsetPc (0xFFFF : W) false s hs
+        have hop := Rel.offsetPc (B := B) (0xFFFF : W) false s hs
         rcases h2 : Sim.offsetPc (0xFFFF : W) false s with ⟨r, s1⟩
         rw [h2] at hop
         cases r with
@@ -237,12 +251,23 @@ theorem Rel.handleInterrupt (vect : W) (priority : Option Nat) :
         | ok u => simp only [SimM.modifyS_apply, SimM.throwB_apply]; exact hop.1
       · simp only [hp, if_false, SimM.throwB_apply]; exact hs
 
-theorem Rel.modify' (f : Sim → Sim) (h1 : ∀ s, f (rt s) = rt (f s)) (h2 : ∀ s, (f s).flags = s.flags) : Rel (modifyS f) :=
+theorem Rel.modify' (f : Sim → Sim) (h1 : ∀ s, f (rt s) = rt (f s)) (h2 : ∀ s, (f s).flags = s.flags) : Rel B (modifyS f) :=
   Rel.modify f h1 h2
 
 macro "rel_mod" : tactic => `(tactic| (refine Rel.modify _ ?_ ?_ <;> intro _ <;> rfl))
 
-theorem Rel.execInstr (i : SimInstr) : Rel (Sim.execInstr i) := by
+/-- a TRAP instruction can only name the one virtualised vector x25 (HALT) -/
+theorem trap_vect_halt (v : BitVec 8) (brk : StepBreak) (h : realIntVect (v.setWidth 16) = some brk) : brk = .halt := by
+  unfold realIntVect at h
+  have hlt : (v.setWidth 16).toNat < 256 := by simp only [BitVec.toNat_setWidth]; have := v.isLt; omega
+  split at h
+  · cases h; rfl
+  · have n1 : ¬ (v.setWidth 16 = 0x100) := fun e => by rw [e] at hlt; simp at hlt
+    have n2 : ¬ (v.setWidth 16 = 0x101) := fun e => by rw [e] at hlt; simp at hlt
+    have n3 : ¬ (v.setWidth 16 = 0x102) := fun e => by rw [e] at hlt; simp at hlt
+    simp only [n1, n2, n3, if_false, reduceCtorEq] at h
+
+theorem Rel.execInstr (i : SimInstr) (hB : B .halt) : Rel B (Sim.execInstr i) := by
   cases i with
   | br cc off =>
     simp only [Sim.execInstr]
@@ -319,7 +344,7 @@ theorem Rel.execInstr (i : SimInstr) : Rel (Sim.execInstr i) := by
   | trap v =>
     simp only [Sim.execInstr]
     apply Rel.getS; intro s hs
-    exact Rel.handleInterrupt _ _ s hs
+    exact Rel.handleInterrupt _ _ (fun brk hb => by rw [trap_vect_halt v brk hb]; exact hB) s hs
   | rti =>
     simp only [Sim.execInstr]
     apply Rel.getS; intro s hs
@@ -340,7 +365,7 @@ theorem Rel.execInstr (i : SimInstr) : Rel (Sim.execInstr i) := by
     · rel_mod
     · rel_mod
 
-theorem Rel.fetchExec : Rel Sim.fetchExec := by
+theorem Rel.fetchExec (hB : B .halt) : Rel B Sim.fetchExec := by
   unfold Sim.fetchExec
   apply Rel.getS; intro s hs
   simp only [rt_pc, rt_defaultCtx]
@@ -349,42 +374,65 @@ theorem Rel.fetchExec : Rel Sim.fetchExec := by
   refine Rel.bind (Rel.liftE _) (fun instr => ?_)
   refine Rel.bind (Rel.offsetPc _ _) (fun _ => ?_)
   refine Rel.bind (by rel_mod) (fun _ => ?_)
-  refine Rel.bind (Rel.execInstr instr) (fun _ => ?_)
+  refine Rel.bind (Rel.execInstr instr hB) (fun _ => ?_)
   rel_mod
 
-theorem Rel.stepInner : Rel Sim.stepInner := by
+theorem Rel.stepInner (hB : ∀ e, B e) : Rel B Sim.stepInner := by
   intro s hs
   unfold Sim.stepInner
   have h1 : afterPoll (rt s) = rt (afterPoll s) := rfl
   have h2 : (afterPoll s).flags.realTraps = false := hs
   simp only [rt_dev, h1]
   cases (s.dev.pollInterrupt).1 with
-  | none => exact Rel.fetchExec _ h2
+  | none => exact Rel.fetchExec (hB _) _ h2
   | some i =>
     cases i with
     | external tag => exact OutRel.same _ _ h2
     | vectored vect prio =>
       simp only [rt_psr]
       by_cases hp : prio > PSR.priority (afterPoll s).psr
-      · simp only [hp, if_true]; exact Rel.handleInterrupt _ _ _ h2
-      · simp only [hp, if_false]; exact Rel.fetchExec _ h2
+      · simp only [hp, if_true]; exact Rel.handleInterrupt _ _ (fun brk _ => hB brk) _ h2
+      · simp only [hp, if_false]; exact Rel.fetchExec (hB _) _ h2
+
+/-- with a quiet poll the only virtualised event inside a step is `TRAP x25` -/
+theorem stepInner_quiet (hB : B .halt) (s : Sim) (hs : s.flags.realTraps = false) (hq : s.dev.pollInterrupt = (none, s.dev)) :
+    OutRel B (Sim.stepInner s) (Sim.stepInner (rt s)) := by
+  unfold Sim.stepInner
+  have h1 : afterPoll (rt s) = rt (afterPoll s) := rfl
+  have h2 : (afterPoll s).flags.realTraps = false := hs
+  simp only [rt_dev, h1, hq]
+  exact Rel.fetchExec hB _ h2
+
+/-- **an exception inside a step is the same exception under real traps**: when the inner step of the virtual-trap machine
+    fails with an error other than the HALT break (and no interrupt is pending), the inner step of the real-trap machine
+    fails in the same way in the same state — the wrapper `step` then vectors it (C08.real_trap_vectoring) -/
+theorem stepInner_exception_same (s s' : Sim) (e : SimErr) (hs : s.flags.realTraps = false)
+    (hq : s.dev.pollInterrupt = (none, s.dev)) (h : Sim.stepInner s = (.error (.err e), s')) :
+    Sim.stepInner (rt s) = (.error (.err e), rt s') ∧ s'.flags.realTraps = false := by
+  have hr := stepInner_quiet (B := fun b => b = .halt) rfl s hs hq
+  rw [h] at hr
+  obtain ⟨hfl, hrr⟩ := hr
+  refine ⟨?_, hfl⟩
+  rcases hrr with ⟨b, hb, he⟩ | hrr
+  · subst hb; cases he
+  · exact hrr
 
 
 /-- **one step**: either the virtual-trap step ends in an error (HALT, an exception, …) or the real-trap step gives the same
     result and the same state up to the flag -/
-theorem step_real_rel (s : Sim) (hv : s.flags.realTraps = false) : OutRel (Sim.step s) (Sim.step (rt s)) := by
-  have h := Rel.stepInner s hv
+theorem step_real_rel (s : Sim) (hv : s.flags.realTraps = false) : OutRel (fun _ => True) (Sim.step s) (Sim.step (rt s)) := by
+  have h := Rel.stepInner (B := fun _ => True) (fun _ => trivial) s hv
   unfold Sim.step
   rcases h1 : Sim.stepInner s with ⟨r, s'⟩
   rw [h1] at h
   obtain ⟨hfl, hr⟩ := h
   simp only at hfl hr
   simp only [hfl, Bool.not_false, if_true]
-  rcases hr with ⟨e, he⟩ | hr
-  · subst he; exact ⟨hfl, Or.inl ⟨e, rfl⟩⟩
+  rcases hr with ⟨e, _, he⟩ | hr
+  · subst he; exact ⟨hfl, Or.inl ⟨e, trivial, rfl⟩⟩
   · rw [hr]
     cases r with
-    | error b => exact ⟨hfl, Or.inl ⟨b, rfl⟩⟩
+    | error b => exact ⟨hfl, Or.inl ⟨b, trivial, rfl⟩⟩
     | ok u =>
       simp only [rt_realTraps, Bool.not_true, Bool.false_eq_true, if_false]
       exact ⟨hfl, Or.inr rfl⟩
@@ -415,7 +463,7 @@ theorem okSteps_real : ∀ (n : Nat) (s s' : Sim), s.flags.realTraps = false →
     | error b => simp only at h; cases h
     | ok u =>
       simp only at h
-      rcases hrr with ⟨e, he⟩ | hrr
+      rcases hrr with ⟨e, _, he⟩ | hrr
       · cases he
       · rw [hrr]
         simp only
@@ -466,7 +514,7 @@ theorem runLoop_real (tw : Tripwire) : ∀ (fuel iter : Nat) (s : Sim), s.flags.
         rw [hst] at hstep
         obtain ⟨hfl, hr⟩ := hstep
         simp only at hfl hr
-        rcases hr with ⟨e, he⟩ | hr
+        rcases hr with ⟨e, _, he⟩ | hr
         · subst he
           cases e with
           | halt => exact ⟨hfl, Or.inl (Or.inl rfl)⟩
